@@ -14,6 +14,7 @@ import (
 	"path/filepath"
 	"sort"
 	"strings"
+	"sync"
 	"sync/atomic"
 	"syscall"
 	"time"
@@ -411,6 +412,22 @@ func (r *Runner) gen(root, top string, w *World, g *GenSpec, inputs map[string]s
 	if g.Gomaxprocs > 0 {
 		env = append(env, fmt.Sprintf("GOMAXPROCS=%d", g.Gomaxprocs))
 	}
+	if len(g.Env) > 0 {
+		// keep the go tool's own locations fixed while HOME etc. vary
+		for _, k := range []string{"GOCACHE", "GOPATH", "GOMODCACHE"} {
+			if v := goEnvValue(k); v != "" {
+				env = append(env, k+"="+v)
+			}
+		}
+		keys := make([]string, 0, len(g.Env))
+		for k := range g.Env {
+			keys = append(keys, k)
+		}
+		sort.Strings(keys)
+		for _, k := range keys {
+			env = append(env, k+"="+g.Env[k])
+		}
+	}
 	cmd.Env = env
 	var so, se bytes.Buffer
 	cmd.Stdout = &so
@@ -548,4 +565,19 @@ func corrupt(root string, inputs map[string]string, op Op) error {
 		return os.WriteFile(fp, append(b, []byte("\nfunc (\n")...), 0o644)
 	}
 	return nil
+}
+
+var goEnvCache sync.Map
+
+func goEnvValue(k string) string {
+	if v, ok := goEnvCache.Load(k); ok {
+		return v.(string)
+	}
+	out, err := exec.Command("go", "env", k).Output()
+	v := ""
+	if err == nil {
+		v = strings.TrimSpace(string(out))
+	}
+	goEnvCache.Store(k, v)
+	return v
 }
